@@ -1765,7 +1765,12 @@ class LoopExpression(Expression):
 
         stop = offset + length if offset else length
         context.stopindex(key=offset_key, index=stop)
-        it = islice(it, offset, stop)
+        try:
+            it = islice(it, offset, stop)
+        except ValueError as err:
+            raise LiquidTypeError(
+                "limit and offset must not be negative", token=self.token
+            ) from err
 
         if self.reversed:
             return reversed(list(it)), length
